@@ -8,6 +8,7 @@
    The received MAC is computed but never compared by the code, so no hypothesis about MAC verification appears. *)
 From Coq Require Import NArith List Bool.
 Require Import Bytes Count NasSec RefNasPeer Security NasSecInst CountProofs NasSecProofs NasSecC07.
+Require Import Concurrency Footprints AesStateless.
 Import ListNotations.
 Open Scope N_scope.
 
@@ -104,3 +105,9 @@ Qed.
 Example c10_wrong_mac_is_not_rejected :
   snd (get_nas_pdu_x (init_ue 2 2 c10_k1 c10_k2) [0x7e; 1; 0xde; 0xad; 0xbe; 0xef; 7; 0x7e; 0; 0x43]) = Ok [0x7e; 0; 0x43].
 Proof. vm_compute. reflexivity. Qed.
+
+(* the AES-based algorithms keep nothing between calls: reflective over the footprints REGENERATED from the current source
+   (go/ssa: package-level variables written / read by everything statically reachable from NEA2 and NIA2) *)
+Theorem c10_aes_algorithms_keep_no_package_state : family_stateless footprints aes_family = true.
+Proof. exact nea2_nia2_keep_no_state. Qed.
+Print Assumptions c10_aes_algorithms_keep_no_package_state.
